@@ -59,24 +59,882 @@ Lemma ik_range_cases k z :
   (ik_min k <=? z) && (z <=? ik_max k) = true -> ik_min k <= z <= ik_max k.
 Proof. intros H; apply andb_true_iff in H as [H1 H2]; lia. Qed.
 
+Ltac pow2 :=
+  repeat match goal with
+         | |- context [2 ^ ?n] => let c := eval vm_compute in (2 ^ n) in change (2 ^ n) with c
+         | H : context [2 ^ ?n] |- _ => let c := eval vm_compute in (2 ^ n) in change (2 ^ n) with c in H
+         end.
+
+Lemma wrap64_small z : -9223372036854775808 <= z < 9223372036854775808 -> wrap64 z = z.
+Proof. intros H. unfold wrap64. rewrite Z.mod_small by lia. lia. Qed.
+
 Lemma int_roundtrip k z :
   ik_min k <= z <= ik_max k ->
   trunc_to k (if ik_signed k then z else wrap64 z) = z.
 Proof.
   intros H. unfold trunc_to, wrap64.
-  destruct k; cbn [ik_signed ik_bits ik_min ik_max] in *;
-    change (2 ^ 8) with 256 in *; change (2 ^ 16) with 65536 in *; change (2 ^ 32) with 4294967296 in *;
-    change (2 ^ 64) with 18446744073709551616 in *;
-    change (2 ^ (8 - 1)) with 128 in *; change (2 ^ (16 - 1)) with 32768 in *;
-    change (2 ^ (32 - 1)) with 2147483648 in *; change (2 ^ (64 - 1)) with 9223372036854775808 in *;
-    cbn -[Z.modulo Z.div Z.add Z.sub] in *;
-    try (rewrite Z.mod_small by lia; lia).
-  all: destruct (Z_lt_ge_dec z 9223372036854775808) as [Hs|Hb].
-  all: try (rewrite (Z.mod_small (z + 9223372036854775808)) by lia;
-            replace (z + 9223372036854775808 - 9223372036854775808) with z by lia;
-            rewrite Z.mod_small by lia; lia).
-  all: replace (z + 9223372036854775808) with ((z - 9223372036854775808) + 1 * 18446744073709551616) by lia;
-       rewrite Z.mod_add by lia; rewrite (Z.mod_small (z - 9223372036854775808)) by lia;
-       replace (z - 9223372036854775808 - 9223372036854775808) with (z + (-1) * 18446744073709551616) by lia;
-       rewrite Z.mod_add by lia; rewrite Z.mod_small by lia; lia.
+  destruct k; cbv [ik_signed ik_bits ik_min ik_max] in *; pow2; Z.div_mod_to_equations; lia.
 Qed.
+
+(* ------------------------------------------------------------------------------------------------ *)
+(** * The native order of map keys is a strict total order on the values of a scalar type *)
+
+Lemma str_ltb_irrefl a : str_ltb a a = false.
+Proof.
+  induction a as [|x a IH]; cbn [str_ltb]; [reflexivity|].
+  rewrite N.ltb_irrefl, N.eqb_refl. exact IH.
+Qed.
+
+Lemma str_ltb_trans a : forall b c, str_ltb a b = true -> str_ltb b c = true -> str_ltb a c = true.
+Proof.
+  induction a as [|x a IH]; intros [|y b] [|z c]; cbn [str_ltb]; try discriminate; auto.
+  destruct (N.ltb_spec x y) as [Hxy|Hxy].
+  - intros _. destruct (N.ltb_spec y z) as [Hyz|Hyz].
+    + intros _. destruct (N.ltb_spec x z); [reflexivity|lia].
+    + destruct (N.eqb_spec y z) as [->|]; [|discriminate]. intros _.
+      destruct (N.ltb_spec x z); [reflexivity|lia].
+  - destruct (N.eqb_spec x y) as [->|]; [|discriminate]. intros Hab.
+    destruct (N.ltb_spec y z) as [Hyz|Hyz]; [reflexivity|].
+    destruct (N.eqb_spec y z) as [->|]; [|discriminate]. intros Hbc. eauto.
+Qed.
+
+Lemma str_ltb_total a : forall b, str_ltb a b = false -> str_eqb a b = false -> str_ltb b a = true.
+Proof.
+  induction a as [|x a IH]; intros [|y b]; cbn [str_ltb str_eqb]; try discriminate; auto.
+  destruct (N.ltb_spec x y) as [Hxy|Hxy]; [discriminate|].
+  destruct (N.eqb_spec x y) as [->|Hn]; cbn [andb].
+  - rewrite N.ltb_irrefl, N.eqb_refl. apply IH.
+  - intros _ _. destruct (N.ltb_spec y x); [reflexivity|lia].
+Qed.
+
+Lemma gkey_ltb_irrefl a : gkey_ltb a a = false.
+Proof.
+  destruct a; cbn [gkey_ltb]; auto using Z.ltb_irrefl, str_ltb_irrefl.
+  destruct b; reflexivity.
+Qed.
+
+Lemma gkey_ltb_trans a b c : gkey_ltb a b = true -> gkey_ltb b c = true -> gkey_ltb a c = true.
+Proof.
+  destruct a, b; cbn [gkey_ltb]; try discriminate; destruct c; cbn [gkey_ltb]; try discriminate.
+  - rewrite !Z.ltb_lt; lia.
+  - rewrite !Z.ltb_lt; lia.
+  - apply str_ltb_trans.
+  - destruct b, b0, b1; cbn; congruence.
+Qed.
+
+Lemma gkey_eqb_eq a b : gkey_eqb a b = true -> a = b.
+Proof.
+  destruct a, b; cbn [gkey_eqb]; try discriminate; intros H.
+  - apply Z.eqb_eq in H; congruence.
+  - apply Z.eqb_eq in H; congruence.
+  - apply str_eqb_eq in H; congruence.
+  - apply eqb_prop in H; congruence.
+Qed.
+
+Lemma is_f32_bounds b : is_f32 b = true -> 0 <= b < two64.
+Proof.
+  unfold is_f32. intros H. apply andb_true_iff in H as [H _]. apply andb_true_iff in H as [H1 H2]. lia.
+Qed.
+
+Lemma float_bits_bounds t b :
+  has_type (GVFloat b) t = true -> 0 <= b < two64.
+Proof.
+  destruct t; cbn [has_type]; try discriminate.
+  - apply is_f32_bounds.
+  - intros H; apply andb_true_iff in H as [H1 H2]; lia.
+Qed.
+
+Lemma fimg_inj x y :
+  0 <= x < two64 -> 0 <= y < two64 ->
+  (if f_sign x =? 1 then - x else x) = (if f_sign y =? 1 then - y else y) -> x = y.
+Proof.
+  unfold f_sign, two64, two63. intros Hx Hy.
+  destruct (Z.eqb_spec (x / 9223372036854775808) 1) as [Ex|Ex];
+    destruct (Z.eqb_spec (y / 9223372036854775808) 1) as [Ey|Ey]; intros H;
+    Z.div_mod_to_equations; lia.
+Qed.
+
+(* a hypothesis `match o with ... => false end = true` whose every branch is false *)
+Ltac absurd_match :=
+  match goal with
+  | H : match ?o with _ => _ end = true |- _ => destruct o as [[? ?]|]; discriminate H
+  | H : match ?o with _ => _ end = true |- _ => destruct o; discriminate H
+  end.
+
+Lemma gkey_total t a b :
+  is_scalar_ty t = true -> has_type a t = true -> has_type b t = true ->
+  gkey_ltb a b = false -> gkey_eqb a b = false -> gkey_ltb b a = true.
+Proof.
+  intros Hs Ha Hb.
+  assert (Hba : forall x, a = GVFloat x -> 0 <= x < two64) by (intros x ->; eapply float_bits_bounds; eauto).
+  assert (Hbb : forall x, b = GVFloat x -> 0 <= x < two64) by (intros x ->; eapply float_bits_bounds; eauto).
+  destruct t; try discriminate Hs;
+    destruct a; cbn [has_type] in Ha; try discriminate Ha; try solve [absurd_match];
+    destruct b; cbn [has_type] in Hb; try discriminate Hb; try solve [absurd_match];
+    cbn [gkey_ltb gkey_eqb]; intros Hlt Hne.
+  - apply Z.ltb_ge in Hlt. apply Z.eqb_neq in Hne. apply Z.ltb_lt. lia.
+  - specialize (Hba _ eq_refl). specialize (Hbb _ eq_refl).
+    apply Z.ltb_ge in Hlt. apply Z.eqb_neq in Hne. apply Z.ltb_lt.
+    destruct (Z.eq_dec (if f_sign bits =? 1 then - bits else bits) (if f_sign bits0 =? 1 then - bits0 else bits0)) as [E|E].
+    + apply fimg_inj in E; auto. congruence.
+    + lia.
+  - specialize (Hba _ eq_refl). specialize (Hbb _ eq_refl).
+    apply Z.ltb_ge in Hlt. apply Z.eqb_neq in Hne. apply Z.ltb_lt.
+    destruct (Z.eq_dec (if f_sign bits =? 1 then - bits else bits) (if f_sign bits0 =? 1 then - bits0 else bits0)) as [E|E].
+    + apply fimg_inj in E; auto. congruence.
+    + lia.
+  - apply str_ltb_total; assumption.
+  - destruct b0, b; cbn in *; congruence.
+Qed.
+
+(* ------------------------------------------------------------------------------------------------ *)
+(** * Go maps as key-sorted entry lists: SetMapIndex in any order of distinct keys yields the sorted list *)
+
+Definition entry := (gval * gval)%type.
+
+Definition keys_lt (k : gval) (m : list entry) : Prop := Forall (fun e => gkey_ltb k (fst e) = true) m.
+
+Fixpoint ssorted (m : list entry) : Prop :=
+  match m with
+  | [] => True
+  | e :: m' => keys_lt (fst e) m' /\ ssorted m'
+  end.
+
+Definition typed_keys (t : gty) (m : list entry) : Prop := Forall (fun e => has_type (fst e) t = true) m.
+
+Lemma sorted_keys_ssorted l : sorted_keys l = true -> ssorted l.
+Proof.
+  induction l as [|[k v] l IH]; cbn [sorted_keys ssorted]; [trivial|].
+  destruct l as [|[k' v'] l'].
+  - intros _. split; [constructor|exact I].
+  - intros H. apply andb_true_iff in H as [Hk Hs]. specialize (IH Hs).
+    split; [|exact IH]. cbn [ssorted] in IH. destruct IH as [Hk' _].
+    constructor; [exact Hk|].
+    cbn [fst] in *. eapply Forall_impl; [|exact Hk']. intros e He. eapply gkey_ltb_trans; eauto.
+Qed.
+
+Lemma ssorted_nodup m : ssorted m -> NoDup (map fst m).
+Proof.
+  induction m as [|e m IH]; cbn [ssorted map]; [constructor|].
+  intros [Hk Hs]. constructor; [|auto].
+  intros Hin. apply in_map_iff in Hin as [e' [He' Hin]].
+  unfold keys_lt in Hk. rewrite Forall_forall in Hk. specialize (Hk _ Hin).
+  rewrite He', gkey_ltb_irrefl in Hk. discriminate.
+Qed.
+
+Lemma map_put_spec t k v m :
+  is_scalar_ty t = true -> has_type k t = true -> typed_keys t m -> ssorted m ->
+  Forall (fun e => fst e <> k) m ->
+  ssorted (map_put k v m) /\ Permutation ((k, v) :: m) (map_put k v m).
+Proof.
+  intros Hs Hk. induction m as [|[k' v'] m IH]; intros Ht Hsm Hne; cbn [map_put].
+  - split; [cbn; split; [constructor|exact I]|apply Permutation_refl].
+  - inversion Ht as [|? ? Hk' Ht']; subst. inversion Hne as [|? ? Hn Hne']; subst.
+    cbn [fst] in *. destruct Hsm as [Hlt Hsm'].
+    destruct (gkey_eqb k k') eqn:He.
+    { apply gkey_eqb_eq in He. congruence. }
+    destruct (gkey_ltb k k') eqn:Hl.
+    + split; [|apply Permutation_refl].
+      cbn [ssorted fst]. split; [|split; assumption].
+      constructor; [exact Hl|].
+      eapply Forall_impl; [|exact Hlt]. intros e He'. eapply gkey_ltb_trans; eauto.
+    + assert (Hgt : gkey_ltb k' k = true) by (eapply gkey_total; eauto).
+      destruct (IH Ht' Hsm' Hne') as [IHs IHp].
+      split.
+      * cbn [ssorted fst]. split; [|exact IHs].
+        unfold keys_lt. eapply Permutation_Forall; [exact IHp|].
+        constructor; [exact Hgt|exact Hlt].
+      * eapply perm_trans; [apply perm_swap|]. apply perm_skip. exact IHp.
+Qed.
+
+Definition put_all (l : list entry) (m0 : list entry) : list entry :=
+  fold_left (fun m e => map_put (fst e) (snd e) m) l m0.
+
+Lemma put_all_spec t : is_scalar_ty t = true ->
+  forall l m0, typed_keys t l -> NoDup (map fst l) -> typed_keys t m0 -> ssorted m0 ->
+  (forall e e0, In e l -> In e0 m0 -> fst e0 <> fst e) ->
+  ssorted (put_all l m0) /\ Permutation (l ++ m0) (put_all l m0).
+Proof.
+  intros Hs. induction l as [|[k v] l IH]; intros m0 Htl Hnd Htm Hsm Hdis; cbn [put_all fold_left app].
+  - split; [exact Hsm|apply Permutation_refl].
+  - inversion Htl as [|? ? Hk Htl']; subst. cbn [map fst] in Hnd. inversion Hnd as [|? ? Hnin Hnd']; subst.
+    cbn [fst snd] in *.
+    assert (Hne : Forall (fun e => fst e <> k) m0).
+    { apply Forall_forall. intros e0 He0. apply (Hdis (k, v) e0); [left; reflexivity|exact He0]. }
+    destruct (map_put_spec t k v m0 Hs Hk Htm Hsm Hne) as [Hs1 Hp1].
+    assert (Htm1 : typed_keys t (map_put k v m0)).
+    { unfold typed_keys. eapply Permutation_Forall; [exact Hp1|]. constructor; assumption. }
+    assert (Hdis1 : forall e e0, In e l -> In e0 (map_put k v m0) -> fst e0 <> fst e).
+    { intros e e0 He He0. apply Permutation_sym in Hp1. apply (Permutation_in _ Hp1) in He0.
+      destruct He0 as [<-|He0].
+      - cbn [fst]. intros E. apply Hnin. rewrite E. apply in_map. exact He.
+      - apply Hdis; [right; exact He|exact He0]. }
+    destruct (IH (map_put k v m0) Htl' Hnd' Htm1 Hs1 Hdis1) as [Hs2 Hp2].
+    fold (put_all l (map_put k v m0)).
+    split; [exact Hs2|].
+    eapply perm_trans; [|exact Hp2].
+    eapply perm_trans; [apply Permutation_middle|]. apply Permutation_app_head. exact Hp1.
+Qed.
+
+Lemma ssorted_perm_eq m1 : forall m2, ssorted m1 -> ssorted m2 -> Permutation m1 m2 -> m1 = m2.
+Proof.
+  induction m1 as [|e1 m1 IH]; intros m2 H1 H2 Hp.
+  - apply Permutation_nil in Hp. congruence.
+  - destruct m2 as [|e2 m2].
+    { apply Permutation_sym, Permutation_nil in Hp. discriminate. }
+    cbn [ssorted] in H1, H2. destruct H1 as [Hk1 Hs1]. destruct H2 as [Hk2 Hs2].
+    assert (E : e1 = e2).
+    { assert (I1 : In e1 (e2 :: m2)) by (eapply Permutation_in; [exact Hp|left; reflexivity]).
+      assert (I2 : In e2 (e1 :: m1)) by (eapply Permutation_in; [apply Permutation_sym; exact Hp|left; reflexivity]).
+      destruct I1 as [->|I1]; [reflexivity|]. destruct I2 as [->|I2]; [reflexivity|].
+      unfold keys_lt in *. rewrite Forall_forall in Hk1, Hk2.
+      specialize (Hk1 _ I2). specialize (Hk2 _ I1).
+      pose proof (gkey_ltb_trans _ _ _ Hk1 Hk2) as Hc. rewrite gkey_ltb_irrefl in Hc. discriminate. }
+    subst e2. f_equal. apply IH; auto. eapply Permutation_cons_inv; exact Hp.
+Qed.
+
+(* the map rebuilt from any permutation of the entries of a key-sorted list is that list *)
+Lemma put_all_perm t m l :
+  is_scalar_ty t = true -> typed_keys t m -> ssorted m -> Permutation m l -> put_all l [] = m.
+Proof.
+  intros Hs Ht Hsm Hp.
+  assert (Htl : typed_keys t l) by (unfold typed_keys; eapply Permutation_Forall; eauto).
+  assert (Hnd : NoDup (map fst l)).
+  { eapply Permutation_NoDup; [apply Permutation_map; exact Hp|apply ssorted_nodup; exact Hsm]. }
+  destruct (put_all_spec t Hs l [] Htl Hnd (Forall_nil _) I) as [Hs2 Hp2].
+  { intros ? ? _ []. }
+  symmetry. apply ssorted_perm_eq; auto.
+  rewrite app_nil_r in Hp2. eapply perm_trans; eauto.
+Qed.
+
+(* ------------------------------------------------------------------------------------------------ *)
+(** * Wrapping a map: the entries of the Hash are a permutation of the wrapped entries (whatever fmt does) *)
+
+Lemma sm_insert_perm ffmt e l : Permutation (e :: l) (sm_insert ffmt e l).
+Proof.
+  induction l as [|x l IH]; cbn [sm_insert]; [apply Permutation_refl|].
+  destruct (str_ltb _ _); [apply Permutation_refl|].
+  eapply perm_trans; [apply perm_swap|]. apply perm_skip. exact IH.
+Qed.
+
+Lemma sorted_map_perm ffmt l : Permutation l (sorted_map ffmt l).
+Proof.
+  unfold sorted_map. induction l as [|e l IH]; cbn [fold_right]; [constructor|].
+  eapply perm_trans; [apply perm_skip; exact IH|apply sm_insert_perm].
+Qed.
+
+Lemma hash_build_map rk rv (f : entry -> value * value) l : forall m0,
+  (forall kv, In kv l -> rv (snd (f kv)) = Ok (snd kv) /\ rk (fst (f kv)) = Ok (fst kv)) ->
+  hash_build rk rv (map f l) m0 = Ok (put_all l m0).
+Proof.
+  induction l as [|kv l IH]; intros m0 H; cbn [map hash_build put_all fold_left]; [reflexivity|].
+  destruct (H kv (or_introl eq_refl)) as [Hv Hk].
+  destruct (f kv) as [wk wv] eqn:Ef. cbn [fst snd] in *.
+  rewrite Hv, Hk. cbn [rbind]. apply IH. intros kv' Hin. apply H. right; exact Hin.
+Qed.
+
+Lemma rmap_map_ok {A B} (g : B -> res A) (f : A -> B) l :
+  (forall x, In x l -> g (f x) = Ok x) -> rmap g (map f l) = Ok l.
+Proof.
+  induction l as [|x l IH]; intros H; cbn [map rmap]; [reflexivity|].
+  rewrite (H x (or_introl eq_refl)). cbn [rbind]. rewrite IH; [reflexivity|].
+  intros y Hy. apply H. right; exact Hy.
+Qed.
+
+(* ------------------------------------------------------------------------------------------------ *)
+(** * Small computation lemmas about wrapx *)
+
+Lemma wrapx_slice ffmt w e es :
+  wrapx ffmt w (GSlice e) (GVSlice (Some es)) =
+  if is_u8 e then VBinary (Some (bytes_of es)) else VArr (map (wrapx ffmt true e) es).
+Proof. destruct e as [[]| | | | | | | | |]; reflexivity. Qed.
+
+Lemma wrapx_slice_nil ffmt w e :
+  wrapx ffmt w (GSlice e) (GVSlice None) =
+  if w && is_u8 e then VBinary None else if w && fast_slice_elem e then VArr [] else VUndef.
+Proof. destruct w; destruct e as [[]| | | | | | | | |]; reflexivity. Qed.
+
+Lemma ptype_of_slice e :
+  ptype_of (GSlice e) = if is_u8 e then TBinary else TArray (ptype_of e).
+Proof. destruct e as [[]| | | | | | | | |]; reflexivity. Qed.
+
+Lemma is_u8_eq e : is_u8 e = true -> e = GInt KUint8.
+Proof. destruct e as [[]| | | | | | | | |]; cbn; congruence. Qed.
+
+Lemma bytes_roundtrip es :
+  forallb (fun x => has_type x (GInt KUint8)) es = true ->
+  map (fun x => GVInt (Z.of_N x)) (bytes_of es) = es.
+Proof.
+  unfold bytes_of. induction es as [|x es IH]; cbn [forallb map]; [reflexivity|].
+  intros H. apply andb_true_iff in H as [Hx Hes]. rewrite (IH Hes). f_equal.
+  destruct x; cbn [has_type] in Hx; try discriminate Hx; try solve [absurd_match].
+  apply andb_true_iff in Hx as [H1 H2]. cbv [ik_min ik_signed] in H1. rewrite Z2N.id by lia. reflexivity.
+Qed.
+
+(* a pointer destination takes what its element type takes (integertype.go:361, floattype.go:258,
+   stringtype.go:498, booleantype.go:233, arraytype.go:542, hashtype.go:957, binarytype.go:236) *)
+Definition ptr_liftable (e : gty) (val : value) : bool :=
+  match val, e with
+  | VInt _, GInt _ | VFloat _, GFloat32 | VFloat _, GFloat64 | VStr _, GString | VBool _, GBool
+  | VArr _, GSlice _ | VHash _, GMap _ _ | VBinary _, GSlice _ => true
+  | _, _ => false
+  end.
+
+Lemma ptr_lift e val y :
+  ptr_liftable e val = true -> reflect_to e val = Ok y -> y <> GVOutside ->
+  reflect_to (GPtr e) val = Ok (GVPtr (Some y)).
+Proof.
+  destruct val, e; cbn [ptr_liftable]; try discriminate; intros _; cbn [reflect_to]; intros H Hy;
+    try (inversion H; reflexivity).
+  - match goal with |- context [is_f32 ?b] => destruct (is_f32 b) end; inversion H; subst; [reflexivity|contradiction].
+  - rewrite H; reflexivity.
+  - destruct (rmap _ _); cbn [rbind] in *; inversion H; reflexivity.
+  - destruct (hash_build _ _ _ _); cbn [rbind] in *; inversion H; reflexivity.
+Qed.
+
+Lemma wrapx_false_liftable ffmt e x :
+  has_type x e = true -> is_ptr_ty e = false -> is_struct_ty e = false -> is_iface e = false ->
+  is_nil_coll x = false -> ptr_liftable e (wrapx ffmt false e x) = true.
+Proof.
+  intros Ht Hp Hs Hi Hn.
+  destruct e; try discriminate;
+    destruct x; cbn [has_type] in Ht; try discriminate Ht; try solve [absurd_match]; try reflexivity.
+  - destruct o; [|discriminate Hn]. rewrite wrapx_slice. destruct (is_u8 e); reflexivity.
+  - destruct o; [|discriminate Hn]. reflexivity.
+Qed.
+
+Lemma has_type_not_outside v t : has_type v t = true -> v <> GVOutside.
+Proof. intros H ->. destruct t; discriminate H. Qed.
+
+(* ------------------------------------------------------------------------------------------------ *)
+(** * Round trip: reflect_to t (wrapx w t v) = Ok v *)
+
+Section RoundTrip.
+  Variable ffmt : Z -> str.
+
+  Definition rt_prop (v : gval) : Prop :=
+    forall w t, has_type v t = true -> rt_ok w t v = true -> (w = false -> is_iface t = false) ->
+                reflect_to t (wrapx ffmt w t v) = Ok v.
+
+  Lemma rt_int z : rt_prop (GVInt z).
+  Proof.
+    intros w t Ht _ _. destruct t; cbn [has_type] in Ht; try discriminate Ht.
+    apply ik_range_cases in Ht. cbn [wrapx wrap_primitive reflect_to]. rewrite int_roundtrip by exact Ht. reflexivity.
+  Qed.
+
+  Lemma rt_float b : rt_prop (GVFloat b).
+  Proof.
+    intros w t Ht _ _. destruct t; cbn [has_type] in Ht; try discriminate Ht; cbn [wrapx wrap_primitive reflect_to].
+    - rewrite Ht. reflexivity.
+    - reflexivity.
+  Qed.
+
+  Lemma rt_slice es : Forall rt_prop es -> rt_prop (GVSlice (Some es)).
+  Proof.
+    intros IH w t Ht Hr _. destruct t; cbn [has_type] in Ht; try discriminate Ht.
+    cbn [rt_ok elem_ty] in Hr. rewrite wrapx_slice. destruct (is_u8 t) eqn:Eu.
+    - apply is_u8_eq in Eu. subst t. cbn [reflect_to binary_to]. unfold bytes_gval. rewrite bytes_roundtrip by exact Ht. reflexivity.
+    - cbn [reflect_to]. rewrite rmap_map_ok; [reflexivity|].
+      intros x Hx. rewrite Forall_forall in IH. rewrite forallb_forall in Ht, Hr.
+      apply IH; auto. discriminate.
+  Qed.
+
+  Lemma rt_map kvs : Forall (fun kv => rt_prop (fst kv) /\ rt_prop (snd kv)) kvs -> rt_prop (GVMap (Some kvs)).
+  Proof.
+    intros IH w t Ht Hr _. destruct t; cbn [has_type] in Ht; try discriminate Ht.
+    apply andb_true_iff in Ht as [Ht Hall]. apply andb_true_iff in Ht as [Hsc Hso].
+    cbn [rt_ok elem_ty key_ty] in Hr. cbn [wrapx elem_ty key_ty].
+    set (f := fun kv : gval * gval => (wrapx ffmt true t1 (fst kv), wrapx ffmt true t2 (snd kv))).
+    destruct (Permutation_map_inv f _ (Permutation_sym (sorted_map_perm ffmt (map f kvs)))) as [l [El Hp]].
+    rewrite El. cbn [reflect_to].
+    rewrite forallb_forall in Hall, Hr. rewrite Forall_forall in IH.
+    assert (Hkeys : forall kv, In kv kvs -> rt_ok true t1 (fst kv) = true).
+    { intros kv Hin. specialize (Hall _ Hin). apply andb_true_iff in Hall as [Hall _]. apply andb_true_iff in Hall as [Hk _].
+      destruct t1; try discriminate Hsc; destruct (fst kv); cbn [has_type] in Hk; try discriminate Hk;
+        try solve [absurd_match]; reflexivity. }
+    rewrite (hash_build_map _ _ f l []).
+    - cbn [rbind]. do 3 f_equal. eapply put_all_perm; eauto.
+      + apply Forall_forall. intros kv Hin. specialize (Hall _ Hin).
+        apply andb_true_iff in Hall as [Hall _]. apply andb_true_iff in Hall as [Hk _]. exact Hk.
+      + apply sorted_keys_ssorted; exact Hso.
+    - intros kv Hin. assert (Hin' : In kv kvs) by (eapply Permutation_in; [apply Permutation_sym; exact Hp|exact Hin]).
+      destruct (IH _ Hin') as [IHk IHv]. pose proof (Hall _ Hin') as Hh.
+      apply andb_true_iff in Hh as [Hh Hv]. apply andb_true_iff in Hh as [Hk _].
+      unfold f; cbn [fst snd]. split.
+      + apply IHv; auto. discriminate.
+      + apply IHk; auto. discriminate.
+  Qed.
+
+  Lemma rt_ptr x : rt_prop x -> rt_prop (GVPtr (Some x)).
+  Proof.
+    intros IH w t Ht Hr _. destruct t; cbn [has_type] in Ht; try discriminate Ht.
+    apply andb_true_iff in Ht as [Hi Hx]. apply negb_true_iff in Hi.
+    cbn [rt_ok elem_ty] in Hr. cbn [wrapx elem_ty].
+    destruct (is_struct_ty t) eqn:Es.
+    - destruct t; try discriminate Es. cbn [struct_name reflect_to]. rewrite str_eqb_refl. reflexivity.
+    - cbn [orb] in Hr. apply andb_true_iff in Hr as [Hr Hrx]. apply andb_true_iff in Hr as [Hp Hn].
+      apply negb_true_iff in Hp. apply negb_true_iff in Hn.
+      apply ptr_lift.
+      + apply wrapx_false_liftable; auto.
+      + apply IH; auto.
+      + eapply has_type_not_outside; eauto.
+  Qed.
+
+  Lemma rt_iface d x : rt_prop (GVIface (Some (d, x))).
+  Proof.
+    intros w t Ht Hr Hw. destruct t; cbn [has_type] in Ht; try discriminate Ht.
+    destruct w; [|discriminate (Hw eq_refl)].
+    apply andb_true_iff in Ht as [Hs Hx]. cbn [rt_ok] in Hr. cbn [wrapx].
+    destruct d as [[]| | | | | | | | |]; try discriminate Hr;
+      destruct x; cbn [has_type] in Hx; try discriminate Hx; try solve [absurd_match]; reflexivity.
+  Qed.
+
+  Theorem roundtrip_gen : forall v, rt_prop v.
+  Proof.
+    induction v using gval_ind'.
+    - apply rt_int.
+    - apply rt_float.
+    - intros w t Ht _ _. destruct t; cbn [has_type] in Ht; try discriminate Ht. reflexivity.
+    - intros w t Ht _ _. destruct t; cbn [has_type] in Ht; try discriminate Ht. reflexivity.
+    - intros w t Ht Hr _. destruct t; cbn [has_type] in Ht; try discriminate Ht.
+      cbn [rt_ok elem_ty] in Hr. apply negb_true_iff in Hr. rewrite wrapx_slice_nil, Hr.
+      destruct (w && is_u8 t) eqn:Eu.
+      + apply andb_true_iff in Eu as [_ Eu]. apply is_u8_eq in Eu. subst t. reflexivity.
+      + reflexivity.
+    - apply rt_slice; assumption.
+    - intros w t Ht Hr _. destruct t; cbn [has_type] in Ht; try discriminate Ht.
+      cbn [rt_ok elem_ty key_ty] in Hr. apply negb_true_iff in Hr. cbn [wrapx elem_ty key_ty]. rewrite Hr. reflexivity.
+    - apply rt_map; assumption.
+    - intros w t Ht _ _. destruct t; cbn [has_type] in Ht; try discriminate Ht. reflexivity.
+    - apply rt_ptr; assumption.
+    - intros w t Ht _ _. destruct t; cbn [has_type] in Ht; try discriminate Ht.
+      cbn [wrapx struct_name reflect_to]. rewrite str_eqb_refl. reflexivity.
+    - intros w t Ht _ Hw. destruct t; cbn [has_type] in Ht; try discriminate Ht.
+      destruct w; [reflexivity|discriminate (Hw eq_refl)].
+    - apply rt_iface.
+    - intros w t Ht. destruct t; discriminate Ht.
+  Qed.
+
+  Corollary roundtrip v t :
+    has_type v t = true -> rt_ok true t v = true -> reflect_to t (wrap ffmt t v) = Ok v.
+  Proof. intros Ht Hr. apply roundtrip_gen; auto. discriminate. Qed.
+
+  (* what wrapReflected yields for a field of a registered struct converts back too *)
+  Corollary roundtrip_reflected v t :
+    has_type v t = true -> rt_ok false t v = true -> is_iface t = false ->
+    reflect_to t (wrap_reflected ffmt t v) = Ok v.
+  Proof. intros Ht Hr Hi. apply roundtrip_gen; auto. Qed.
+End RoundTrip.
+
+(* ------------------------------------------------------------------------------------------------ *)
+(** * The type derived from the Go type accepts the wrapped value *)
+
+Lemma int_accepts k z :
+  ik_min k <= z <= ik_max k ->
+  match k with KUint | KUint64 => z <? two63 | _ => true end = true ->
+  inst (primitive_ptype k) (VInt (if ik_signed k then z else wrap64 z)) = true.
+Proof.
+  intros H Hg.
+  destruct k; cbv [ik_signed ik_min ik_max ik_bits] in H; pow2;
+    try (apply Z.ltb_lt in Hg; unfold two63 in Hg);
+    cbn [primitive_ptype inst ik_signed]; unfold min_int64, max_int64;
+    rewrite ?wrap64_small by lia; apply andb_true_iff; split; apply Z.leb_le; lia.
+Qed.
+
+Lemma f_key_finite_bound b :
+  0 <= b < two64 -> f_exp b <> 2047 -> - max_float64_bits <= f_key b <= max_float64_bits.
+Proof.
+  unfold f_key, f_sign, f_exp, two64, two63, max_float64_bits. intros Hb He.
+  destruct (Z.eqb_spec (b / 9223372036854775808) 1); Z.div_mod_to_equations; lia.
+Qed.
+
+Lemma finite_not_nan b : f_finite b = true -> f_is_nan b = false.
+Proof. unfold f_finite, f_is_nan. intros H. apply negb_true_iff in H. rewrite H. reflexivity. Qed.
+
+Lemma float64_accepts b :
+  0 <= b < two64 -> f_finite b = true ->
+  f_le neg_max_float64_bits b && f_le b max_float64_bits = true.
+Proof.
+  intros Hb Hf. pose proof (finite_not_nan b Hf) as Hn.
+  unfold f_finite in Hf. apply negb_true_iff in Hf. apply Z.eqb_neq in Hf.
+  pose proof (f_key_finite_bound b Hb Hf) as Hk.
+  unfold f_le. rewrite Hn.
+  change (f_is_nan neg_max_float64_bits) with false. change (f_is_nan max_float64_bits) with false.
+  change (f_key neg_max_float64_bits) with (- max_float64_bits). change (f_key max_float64_bits) with max_float64_bits.
+  cbn [negb andb]. apply andb_true_iff; split; apply Z.leb_le; lia.
+Qed.
+
+Lemma f32_key_bound b :
+  is_f32 b = true -> f_exp b <> 2047 -> - max_float32_bits <= f_key b <= max_float32_bits.
+Proof.
+  unfold is_f32. intros H Hf. apply andb_true_iff in H as [Hb H]. apply andb_true_iff in Hb as [Hb1 Hb2].
+  apply Z.leb_le in Hb1. apply Z.ltb_lt in Hb2. cbv zeta in H.
+  destruct (f_exp b =? 0) eqn:E0.
+  { apply Z.eqb_eq in E0, H. revert E0 H.
+    unfold f_key, f_sign, f_exp, f_mant, two64, two63, max_float32_bits in *. intros E0 H.
+    destruct (Z.eqb_spec (b / 9223372036854775808) 1); Z.div_mod_to_equations; lia. }
+  destruct (f_exp b =? 2047) eqn:E1; [apply Z.eqb_eq in E1; contradiction|].
+  destruct ((897 <=? f_exp b) && (f_exp b <=? 1150)) eqn:E2.
+  { apply andb_true_iff in E2 as [E2 E3]. apply Z.leb_le in E2, E3. apply Z.eqb_eq in H. revert E2 E3 H. clear E0 E1 Hf.
+    unfold f_key, f_sign, f_exp, f_mant, two64, two63, max_float32_bits in *. intros E2 E3 H.
+    destruct (Z.eqb_spec (b / 9223372036854775808) 1); Z.div_mod_to_equations; lia. }
+  destruct ((874 <=? f_exp b) && (f_exp b <=? 896)) eqn:E3; [|discriminate H].
+  apply andb_true_iff in E3 as [E3 E4]. apply Z.leb_le in E3, E4. clear H E0 E1 E2 Hf. revert E3 E4.
+  unfold f_key, f_sign, f_exp, f_mant, two64, two63, max_float32_bits in *. intros E3 E4.
+  destruct (Z.eqb_spec (b / 9223372036854775808) 1); Z.div_mod_to_equations; lia.
+Qed.
+
+Lemma float32_accepts b :
+  is_f32 b = true -> f_finite b = true ->
+  f_le neg_max_float32_bits b && f_le b max_float32_bits = true.
+Proof.
+  intros Hb Hf. pose proof (finite_not_nan b Hf) as Hn.
+  unfold f_finite in Hf. apply negb_true_iff in Hf. apply Z.eqb_neq in Hf.
+  pose proof (f32_key_bound b Hb Hf) as Hk.
+  unfold f_le. rewrite Hn.
+  change (f_is_nan neg_max_float32_bits) with false. change (f_is_nan max_float32_bits) with false.
+  change (f_key neg_max_float32_bits) with (- max_float32_bits). change (f_key max_float32_bits) with max_float32_bits.
+  cbn [negb andb]. apply andb_true_iff; split; apply Z.leb_le; lia.
+Qed.
+
+Lemma inst_optional t v : inst t v = true -> inst (TOptional t) v = true.
+Proof. intros H. cbn [inst]. destruct v; auto. Qed.
+
+Section Accepts.
+  Variable ffmt : Z -> str.
+
+  Definition acc_prop (v : gval) : Prop :=
+    forall w t, has_type v t = true -> acc_ok w t v = true -> (w = false -> is_iface t = false) ->
+                inst (ptype_of t) (wrapx ffmt w t v) = true.
+
+  Lemma acc_slice es : Forall acc_prop es -> acc_prop (GVSlice (Some es)).
+  Proof.
+    intros IH w t Ht Ha _. destruct t; cbn [has_type] in Ht; try discriminate Ht.
+    cbn [acc_ok elem_ty] in Ha. rewrite wrapx_slice, ptype_of_slice. destruct (is_u8 t) eqn:Eu; [reflexivity|].
+    cbn [inst]. apply forallb_forall. intros x Hx. apply in_map_iff in Hx as [y [<- Hy]].
+    rewrite Forall_forall in IH. rewrite forallb_forall in Ht, Ha. apply IH; auto. discriminate.
+  Qed.
+
+  Lemma acc_map kvs : Forall (fun kv => acc_prop (fst kv) /\ acc_prop (snd kv)) kvs -> acc_prop (GVMap (Some kvs)).
+  Proof.
+    intros IH w t Ht Ha _. destruct t; cbn [has_type] in Ht; try discriminate Ht.
+    apply andb_true_iff in Ht as [_ Hall].
+    cbn [acc_ok elem_ty key_ty] in Ha. cbn [wrapx elem_ty key_ty ptype_of inst].
+    apply forallb_forall. intros e He.
+    apply (Permutation_in _ (Permutation_sym (sorted_map_perm ffmt _))) in He.
+    apply in_map_iff in He as [kv [<- Hin]]. cbn [fst snd].
+    rewrite forallb_forall in Hall, Ha. rewrite Forall_forall in IH.
+    destruct (IH _ Hin) as [IHk IHv]. specialize (Hall _ Hin). specialize (Ha _ Hin).
+    apply andb_true_iff in Hall as [Hh Hv]. apply andb_true_iff in Hh as [Hk _].
+    apply andb_true_iff in Ha as [Hak Hav].
+    rewrite IHk, IHv; auto; discriminate.
+  Qed.
+
+  Lemma acc_ptr x : acc_prop x -> acc_prop (GVPtr (Some x)).
+  Proof.
+    intros IH w t Ht Ha _. destruct t; cbn [has_type] in Ht; try discriminate Ht.
+    apply andb_true_iff in Ht as [Hi Hx]. apply negb_true_iff in Hi.
+    cbn [acc_ok elem_ty] in Ha. cbn [wrapx elem_ty ptype_of].
+    destruct (is_struct_ty t) eqn:Es.
+    - destruct t; try discriminate Es. cbn [struct_name ptype_of inst]. apply str_eqb_refl.
+    - cbn [orb] in Ha.
+      destruct x as [| | | |[|]|[|]|[|]| |[|]|]; try solve [apply inst_optional; apply IH; auto];
+        try solve [destruct t; cbn [has_type] in Hx; try discriminate Hx; reflexivity].
+  Qed.
+
+  Theorem accepts_gen : forall v, acc_prop v.
+  Proof.
+    induction v using gval_ind'.
+    - intros w t Ht Ha _. destruct t; cbn [has_type] in Ht; try discriminate Ht.
+      apply ik_range_cases in Ht. cbn [acc_ok] in Ha. cbn [wrapx wrap_primitive ptype_of].
+      apply int_accepts; [exact Ht|]. destruct k; exact Ha || reflexivity.
+    - intros w t Ht Ha _. cbn [acc_ok] in Ha.
+      destruct t; cbn [has_type] in Ht; try discriminate Ht; cbn [wrapx wrap_primitive ptype_of inst].
+      + apply float32_accepts; assumption.
+      + apply float64_accepts; [|assumption]. apply andb_true_iff in Ht as [H1 H2]. lia.
+    - intros w t Ht _ _. destruct t; cbn [has_type] in Ht; try discriminate Ht. reflexivity.
+    - intros w t Ht _ _. destruct t; cbn [has_type] in Ht; try discriminate Ht. reflexivity.
+    - intros w t Ht Ha _. destruct t; cbn [has_type] in Ht; try discriminate Ht.
+      cbn [acc_ok elem_ty] in Ha. apply andb_true_iff in Ha as [-> Ha].
+      rewrite wrapx_slice_nil, ptype_of_slice. cbn [andb].
+      destruct (is_u8 t); [reflexivity|]. rewrite orb_false_r in Ha. rewrite Ha. reflexivity.
+    - apply acc_slice; assumption.
+    - intros w t Ht Ha _. destruct t; cbn [has_type] in Ht; try discriminate Ht.
+      cbn [acc_ok elem_ty key_ty] in Ha. cbn [wrapx elem_ty key_ty]. rewrite Ha. reflexivity.
+    - apply acc_map; assumption.
+    - intros w t Ht _ _. destruct t; cbn [has_type] in Ht; try discriminate Ht. reflexivity.
+    - apply acc_ptr; assumption.
+    - intros w t Ht _ _. destruct t; cbn [has_type] in Ht; try discriminate Ht.
+      cbn [wrapx struct_name ptype_of inst]. apply str_eqb_refl.
+    - intros w t Ht _ _. destruct t; cbn [has_type] in Ht; try discriminate Ht. reflexivity.
+    - intros w t Ht _ _. destruct t; cbn [has_type] in Ht; try discriminate Ht. reflexivity.
+    - intros w t Ht. destruct t; discriminate Ht.
+  Qed.
+
+  Corollary ptype_accepts v t :
+    has_type v t = true -> acc_ok true t v = true -> inst (ptype_of t) (wrap ffmt t v) = true.
+  Proof. intros Ht Ha. apply accepts_gen; auto. discriminate. Qed.
+End Accepts.
+
+(* ------------------------------------------------------------------------------------------------ *)
+(** * reflect.DeepEqual of the model is reflexive on well-typed values; the unguarded statements are false *)
+
+Lemma gty_eqb_refl t : gty_eqb t t = true.
+Proof.
+  induction t; cbn [gty_eqb]; auto using str_eqb_refl;
+    try (destruct k; reflexivity); try (rewrite IHt1, IHt2; reflexivity).
+Qed.
+
+Lemma gval_eqb_refl : forall v t, has_type v t = true -> gval_eqb v v = true.
+Proof.
+  induction v using gval_ind'; intros t Ht; cbn [gval_eqb]; auto using Z.eqb_refl, str_eqb_refl, eqb_reflx.
+  - destruct t; cbn [has_type] in Ht; try discriminate Ht. rewrite forallb_forall in Ht.
+    induction es as [|x es IHes]; [reflexivity|]. inversion H as [|? ? Hx Hes]; subst.
+    rewrite (Hx t) by (apply Ht; left; reflexivity). cbn [andb]. apply IHes; auto. intros y Hy. apply Ht. right; exact Hy.
+  - destruct t; cbn [has_type] in Ht; try discriminate Ht.
+    apply andb_true_iff in Ht as [_ Ht]. rewrite forallb_forall in Ht.
+    induction kvs as [|[k x] kvs IHk]; [reflexivity|]. inversion H as [|? ? [Hk Hx] Hr]; subst. cbn [fst snd] in *.
+    pose proof (Ht _ (or_introl eq_refl)) as Hh. cbn [fst snd] in Hh.
+    apply andb_true_iff in Hh as [Hh Hv]. apply andb_true_iff in Hh as [Hkt _].
+    rewrite (Hk _ Hkt), (Hx _ Hv). cbn [andb]. apply IHk; auto. intros y Hy. apply Ht. right; exact Hy.
+  - destruct t; cbn [has_type] in Ht; try discriminate Ht. apply andb_true_iff in Ht as [_ Ht]. eauto.
+  - destruct t; cbn [has_type] in Ht; try discriminate Ht.
+    revert fs0 Ht. induction fs as [|x fs IHfs]; intros gfs Ht; [reflexivity|].
+    destruct gfs as [|f gfs]; [discriminate Ht|]. apply andb_true_iff in Ht as [Hx Hr].
+    inversion H as [|? ? Px Pfs]; subst. rewrite (Px _ Hx). cbn [andb]. eapply IHfs; eauto.
+  - destruct t; cbn [has_type] in Ht; try discriminate Ht. apply andb_true_iff in Ht as [_ Ht].
+    rewrite gty_eqb_refl, (IHv _ Ht). reflexivity.
+Qed.
+
+Lemma roundtrip_deep_equal ffmt v t :
+  has_type v t = true -> rt_ok true t v = true ->
+  exists b, reflect_to t (wrap ffmt t v) = Ok b /\ gval_eqb v b = true.
+Proof. intros Ht Hr. exists v. split; [apply roundtrip; assumption|eapply gval_eqb_refl; eauto]. Qed.
+
+Lemma statement_roundtrip_refuted :
+  ~ (forall (ffmt : Z -> str) v t, has_type v t = true -> reflect_to t (wrap ffmt t v) = Ok v).
+Proof.
+  intros H. specialize (H (fun _ => []) (GVSlice None) (GSlice (GInt KInt)) eq_refl). vm_compute in H. discriminate H.
+Qed.
+
+Lemma statement_ptype_accepts_refuted :
+  ~ (forall (ffmt : Z -> str) v t, has_type v t = true -> inst (ptype_of t) (wrap ffmt t v) = true).
+Proof.
+  intros H. specialize (H (fun _ => []) (GVInt 18446744073709551615) (GInt KUint64) eq_refl). vm_compute in H. discriminate H.
+Qed.
+
+(* ------------------------------------------------------------------------------------------------ *)
+(** * The guards hold on every value without a member of a finding class *)
+
+Lemma plain_value_guards : forall v w t, plain_value t v = true -> rt_ok w t v = true /\ acc_ok w t v = true.
+Proof.
+  induction v using gval_ind'; intros w t Hp; cbn [plain_value] in Hp; cbn [rt_ok acc_ok]; auto; try discriminate Hp.
+  - rewrite forallb_forall in Hp. rewrite Forall_forall in H.
+    split; apply forallb_forall; intros x Hx; apply (H x Hx true); auto.
+  - rewrite forallb_forall in Hp. rewrite Forall_forall in H.
+    split; apply forallb_forall; intros kv Hin; specialize (Hp _ Hin); apply andb_true_iff in Hp as [Hk Hv];
+      destruct (H _ Hin) as [IHk IHv].
+    + apply (IHv true); auto.
+    + rewrite (proj2 (IHk true _ Hk)), (proj2 (IHv true _ Hv)). reflexivity.
+  - destruct (is_struct_ty (elem_ty t)); [auto|]. cbn [orb] in *.
+    apply andb_true_iff in Hp as [Hn Hx]. destruct (IHv false _ Hx) as [Hr Ha]. rewrite Hn, Hr. cbn [andb].
+    split.
+    + destruct v as [| | | |[|]|[|]| | | |]; try reflexivity; discriminate Hx.
+    + destruct v as [| | | |[|]|[|]|[|]| | |]; auto.
+Qed.
+
+(* ------------------------------------------------------------------------------------------------ *)
+(** * Struct <-> object: constructing from the attribute values of the wrapped struct gives the struct back *)
+
+Definition dflt_field : gfield := GField [] None None GIface.
+
+Lemma in_indexed_fields fs j :
+  (j < length fs)%nat -> In (j, nth j fs dflt_field) (indexed_fields fs).
+Proof.
+  intros Hj. unfold indexed_fields.
+  replace (j, nth j fs dflt_field) with (nth j (combine (seq 0 (length fs)) fs) (O, dflt_field)).
+  - apply nth_In. rewrite combine_length, seq_length, Nat.min_id. exact Hj.
+  - rewrite combine_nth by apply seq_length. rewrite seq_nth by exact Hj. reflexivity.
+Qed.
+
+Lemma indexed_fields_in fs p :
+  In p (indexed_fields fs) -> (fst p < length fs)%nat /\ snd p = nth (fst p) fs dflt_field.
+Proof.
+  unfold indexed_fields. intros Hin.
+  destruct (In_nth _ _ (O, dflt_field) Hin) as [k [Hk Ek]].
+  rewrite combine_length, seq_length, Nat.min_id in Hk.
+  rewrite combine_nth in Ek by apply seq_length. rewrite seq_nth in Ek by exact Hk.
+  subst p. cbn [fst snd]. auto.
+Qed.
+
+Lemma attr_order_in fs p : In p (attr_order fs) -> In p (indexed_fields fs).
+Proof. unfold attr_order. intros H. apply in_app_or in H as [H|H]; apply filter_In in H; tauto. Qed.
+
+Lemma attr_order_covers fs j :
+  (j < length fs)%nat -> existsb (fun p => Nat.eqb (fst p) j) (attr_order fs) = true.
+Proof.
+  intros Hj. apply existsb_exists. exists (j, nth j fs dflt_field). split; [|apply Nat.eqb_refl].
+  unfold attr_order. apply in_or_app.
+  destruct (attr_has_value (nth j fs dflt_field)) eqn:Ev; [right|left]; apply filter_In;
+    (split; [apply in_indexed_fields; exact Hj|cbn [snd]; rewrite Ev; reflexivity]).
+Qed.
+
+Lemma length_set_nth {A} i (x : A) l : length (set_nth i x l) = length l.
+Proof. revert i; induction l as [|y l IH]; intros [|i]; cbn [set_nth length]; auto. Qed.
+
+Lemma nth_set_nth {A} i (x : A) l j d :
+  nth j (set_nth i x l) d = if Nat.eqb i j && Nat.ltb i (length l) then x else nth j l d.
+Proof.
+  revert i j; induction l as [|y l IH]; intros [|i] [|j]; cbn [set_nth nth length]; try reflexivity.
+  - destruct (Nat.eqb _ _); reflexivity.
+  - rewrite IH. reflexivity.
+Qed.
+
+Lemma fold_set_nth_spec (vs : list gval) (l : list (nat * gfield)) : forall acc,
+  length acc = length vs ->
+  let r := fold_left (fun acc p => set_nth (fst p) (nth (fst p) vs GVOutside) acc) l acc in
+  length r = length vs /\
+  forall j, nth j r GVOutside =
+            if existsb (fun p => Nat.eqb (fst p) j) l then nth j vs GVOutside else nth j acc GVOutside.
+Proof.
+  induction l as [|p l IH]; intros acc Hl; cbn [fold_left existsb].
+  - auto.
+  - destruct (IH (set_nth (fst p) (nth (fst p) vs GVOutside) acc)) as [Hlen Hn].
+    { rewrite length_set_nth. exact Hl. }
+    split; [exact Hlen|]. intros j. rewrite Hn, nth_set_nth.
+    destruct (existsb _ l); [rewrite orb_true_r; reflexivity|]. rewrite orb_false_r.
+    destruct (Nat.eqb_spec (fst p) j) as [->|Hne]; [|reflexivity]. cbn [andb].
+    destruct (Nat.ltb_spec j (length acc)) as [Hlt|Hge]; [reflexivity|].
+    rewrite (nth_overflow acc) by exact Hge. rewrite (nth_overflow vs) by (rewrite <- Hl; exact Hge). reflexivity.
+Qed.
+
+Lemma fold_set_nth_all fs (vs acc : list gval) :
+  length vs = length fs -> length acc = length fs ->
+  fold_left (fun acc p => set_nth (fst p) (nth (fst p) vs GVOutside) acc) (attr_order fs) acc = vs.
+Proof.
+  intros Hv Ha. destruct (fold_set_nth_spec vs (attr_order fs) acc) as [Hlen Hn]; [congruence|].
+  apply (nth_ext _ _ GVOutside GVOutside); [exact Hlen|].
+  intros j Hj. rewrite Hn, attr_order_covers; [reflexivity|]. rewrite Hlen, Hv in Hj. exact Hj.
+Qed.
+
+Lemma args_ok_map (g : nat * gfield -> value) l :
+  (forall p, In p l -> inst (attr_ty (snd p)) (g p) = true) -> args_ok l (map g l) = true.
+Proof.
+  induction l as [|p l IH]; intros H; cbn [map args_ok]; [reflexivity|].
+  rewrite (H p (or_introl eq_refl)). cbn [andb]. apply IH. intros q Hq. apply H. right; exact Hq.
+Qed.
+
+Lemma set_values_map (g : nat * gfield -> value) (h : nat * gfield -> gval) l : forall acc,
+  (forall p, In p l -> reflect_to (f_ty (snd p)) (g p) = Ok (h p)) ->
+  set_values l (map g l) acc = Ok (fold_left (fun acc p => set_nth (fst p) (h p) acc) l acc).
+Proof.
+  induction l as [|p l IH]; intros acc H; cbn [map set_values fold_left]; [reflexivity|].
+  rewrite (H p (or_introl eq_refl)). cbn [rbind]. apply IH. intros q Hq. apply H. right; exact Hq.
+Qed.
+
+Lemma has_type_struct n fs vs :
+  has_type (GVStruct vs) (GStruct n fs) = true -> Forall2 (fun v f => has_type v (f_ty f) = true) vs fs.
+Proof.
+  cbn [has_type]. revert fs. induction vs as [|v vs IH]; intros [|f fs] H; try discriminate H; constructor.
+  - apply andb_true_iff in H as [H _]. exact H.
+  - apply andb_true_iff in H as [_ H]. apply IH. exact H.
+Qed.
+
+Lemma Forall2_nth_ok {A B} (R : A -> B -> Prop) l1 l2 d1 d2 :
+  Forall2 R l1 l2 -> forall i, (i < length l2)%nat -> R (nth i l1 d1) (nth i l2 d2).
+Proof.
+  induction 1 as [|x y l1 l2 Hxy HF IH]; intros [|i] Hi; cbn [length nth] in *; try lia; auto.
+  apply IH. lia.
+Qed.
+
+Lemma Forall2_same_length {A B} (R : A -> B -> Prop) l1 l2 : Forall2 R l1 l2 -> length l1 = length l2.
+Proof. induction 1; cbn [length]; congruence. Qed.
+
+Definition field_ok (f : gfield) (v : gval) : bool :=
+  is_iface (f_ty f) || (rt_ok false (f_ty f) v && acc_ok false (f_ty f) v).
+
+Lemma obj_ok_fields fs : forall vs, obj_ok fs vs = true -> Forall2 (fun v f => field_ok f v = true) vs fs.
+Proof.
+  induction fs as [|f fs IH]; intros [|v vs] H; cbn [obj_ok] in H; try discriminate H; constructor.
+  - apply andb_true_iff in H as [H _]. exact H.
+  - apply andb_true_iff in H as [_ H]. apply IH. exact H.
+Qed.
+
+Lemma inst_set_addr a : forall t val, inst t (set_addr a val) = inst t val.
+Proof.
+  induction t; intros val; destruct val as [| | | | | | | |n b p| |]; try reflexivity;
+    destruct p; cbn [set_addr inst]; try reflexivity;
+    match goal with |- inst _ _ = inst _ ?v => exact (IHt v) end.
+Qed.
+
+Section ObjectRoundTrip.
+  Variable ffmt : Z -> str.
+
+  (* only a struct taken as it is carries the addressability flag *)
+  Lemma set_addr_wrapx a : forall v t,
+    has_type v t = true -> (forall fs, v <> GVStruct fs) ->
+    set_addr a (wrapx ffmt false t v) = wrapx ffmt false t v.
+  Proof.
+    induction v using gval_ind'; intros t Ht Hns; destruct t; cbn [has_type] in Ht; try discriminate Ht;
+      try reflexivity.
+    - rewrite wrapx_slice. destruct (is_u8 t); reflexivity.
+    - apply andb_true_iff in Ht as [Hi Hx]. cbn [wrapx elem_ty].
+      destruct (is_struct_ty t) eqn:Es; [reflexivity|].
+      apply IHv; [exact Hx|]. intros fs ->. destruct t; cbn [has_type] in Hx; try discriminate Hx. discriminate Es.
+    - exfalso. eapply Hns; reflexivity.
+    - apply andb_true_iff in Ht as [Hs _]. cbn [wrapx]. destruct d; try discriminate Hs; reflexivity.
+  Qed.
+
+  Lemma field_roundtrip a v t :
+    has_type v t = true -> (is_iface t || rt_ok false t v) = true ->
+    reflect_to t (set_addr a (wrap_reflected ffmt t v)) = Ok v.
+  Proof.
+    unfold wrap_reflected. intros Ht Hok.
+    destruct v as [| | | | | | | fs | |]; try (rewrite set_addr_wrapx by (auto; discriminate)).
+    8: { destruct t; cbn [has_type] in Ht; try discriminate Ht.
+         cbn [wrapx set_addr struct_name reflect_to]. rewrite str_eqb_refl. reflexivity. }
+    all: destruct (is_iface t) eqn:Ei;
+      [ destruct t; try discriminate Ei; cbn [has_type] in Ht; try discriminate Ht; try solve [absurd_match]
+      | apply roundtrip_gen; auto ].
+    destruct o as [[d x]|]; [|reflexivity].
+    apply andb_true_iff in Ht as [Hs _]. cbn [wrapx]. destruct d; try discriminate Hs; reflexivity.
+  Qed.
+
+  Lemma field_accepts a v t :
+    has_type v t = true -> (is_iface t || acc_ok false t v) = true ->
+    inst (ptype_of t) (set_addr a (wrap_reflected ffmt t v)) = true.
+  Proof.
+    unfold wrap_reflected. intros Ht Hok. rewrite inst_set_addr.
+    destruct (is_iface t) eqn:Ei.
+    - destruct t; try discriminate Ei. reflexivity.
+    - apply accepts_gen; auto.
+  Qed.
+
+  Theorem struct_object_roundtrip a n fs vs :
+    has_type (GVStruct vs) (GStruct n fs) = true -> obj_ok fs vs = true ->
+    obj_new n fs (obj_gets ffmt a fs vs) = Ok (VObj n true (GVStruct vs)) /\
+    reflect_to (GStruct n fs) (VObj n true (GVStruct vs)) = Ok (GVStruct vs) /\
+    reflect_to (GPtr (GStruct n fs)) (VObj n true (GVStruct vs)) = Ok (GVPtr (Some (GVStruct vs))).
+  Proof.
+    intros Ht Hok. split; [|cbn [reflect_to]; rewrite str_eqb_refl; auto].
+    pose proof (has_type_struct _ _ _ Ht) as HT. pose proof (obj_ok_fields _ _ Hok) as HO.
+    assert (Hlen : length vs = length fs) by (eapply Forall2_same_length; eauto).
+    set (g := fun p : nat * gfield => set_addr a (wrap_reflected ffmt (f_ty (snd p)) (nth (fst p) vs GVOutside))).
+    set (h := fun p : nat * gfield => nth (fst p) vs GVOutside).
+    assert (Hfield : forall p, In p (attr_order fs) ->
+              has_type (h p) (f_ty (snd p)) = true /\ field_ok (snd p) (h p) = true).
+    { intros p Hp. apply attr_order_in, indexed_fields_in in Hp as [Hi Ef]. unfold h. rewrite Ef. split.
+      - apply (Forall2_nth_ok _ _ _ GVOutside dflt_field HT). exact Hi.
+      - apply (Forall2_nth_ok _ _ _ GVOutside dflt_field HO). exact Hi. }
+    unfold obj_new, obj_gets. fold g.
+    rewrite args_ok_map.
+    - rewrite (set_values_map g h).
+      + cbn [rbind]. unfold h. rewrite fold_set_nth_all; [reflexivity|exact Hlen|apply map_length].
+      + intros p Hp. destruct (Hfield p Hp) as [H1 H2]. unfold g. apply field_roundtrip; [exact H1|].
+        unfold field_ok in H2. destruct (is_iface (f_ty (snd p))); [reflexivity|].
+        cbn [orb] in *. apply andb_true_iff in H2 as [H2 _]. exact H2.
+    - intros p Hp. destruct (Hfield p Hp) as [H1 H2]. unfold g, attr_ty. apply field_accepts; [exact H1|].
+      unfold field_ok in H2. destruct (is_iface (f_ty (snd p))); [reflexivity|].
+      cbn [orb] in *. apply andb_true_iff in H2 as [_ H2]. exact H2.
+  Qed.
+End ObjectRoundTrip.
